@@ -212,11 +212,12 @@ impl Scope {
                             //         read_number_of_ext_fields
                             //     )));
                         }
-                        // only the transmitted presence flags exist: a sender with an older
-                        // version of the type has fewer extension additions than known here
-                        let range = bits.pos()
-                            ..bits.pos() + read_number_of_ext_fields.min(*number_of_ext_fields);
-                        bits.set_pos(range.start + read_number_of_ext_fields); // skip bit-field
+                        // all transmitted presence flags: a sender with an older version of the
+                        // type sends fewer than are known here (the missing ones read as absent), a
+                        // sender with a newer version sends more (the additions behind the
+                        // surplus flags are skipped by read_sequence once the known ones are read)
+                        let range = bits.pos()..bits.pos() + read_number_of_ext_fields;
+                        bits.set_pos(range.end); // skip bit-field
                         *self = Scope::AllBitField(range);
                     } else {
                         *self = Scope::ExtensibleSequenceEmpty(name);
@@ -887,6 +888,41 @@ impl<B: ScopedBitRead> UperReader<B> {
         result
     }
 
+    /// Skips the extension additions that a sender with a newer version of the type has sent
+    /// and that the closure of `read_sequence` therefore did not ask for. `scope` is the scope
+    /// the closure left behind.
+    fn skip_unknown_extension_additions(&mut self, scope: Option<Scope>) -> Result<(), Error> {
+        let flags = match scope {
+            // fewer additions are known than were sent: the surplus presence flags remain
+            Some(Scope::AllBitField(flags)) => flags,
+            // no addition is known at all: the presence flags have not been looked at yet
+            Some(Scope::ExtensibleSequence {
+                bit_pos,
+                calls_until_ext_bitfield: 0,
+                ..
+            }) => {
+                if !self.bits.with_read_position_at(bit_pos, |b| b.read_bit())? {
+                    return Ok(());
+                }
+                let count = self.bits.read_normally_small_length()? as usize + 1;
+                if self.bits.remaining() < count {
+                    return Err(ErrorKind::EndOfStream.into());
+                }
+                let flags = self.bits.pos()..self.bits.pos() + count;
+                self.bits.set_pos(flags.end);
+                flags
+            }
+            _ => return Ok(()),
+        };
+        for flag in flags {
+            if self.bits.with_read_position_at(flag, |b| b.read_bit())? {
+                let len = self.read_length_determinant(None, None)?;
+                self.read_whole_sub_slice(len as usize, |_| Ok(()))?;
+            }
+        }
+        Ok(())
+    }
+
     #[inline]
     pub fn read_bit_field_entry(&mut self, is_opt: bool) -> Result<Option<bool>, Error> {
         #[allow(clippy::let_and_return)]
@@ -985,16 +1021,21 @@ impl<B: ScopedBitRead> Reader for UperReader<B> {
             r.bits.set_pos(range.end); // skip optional
 
             if let Some((extension_after, bit_pos)) = extension_after {
-                r.scope_pushed(
-                    Scope::ExtensibleSequence {
+                let original = core::mem::replace(
+                    &mut r.scope,
+                    Some(Scope::ExtensibleSequence {
                         name: C::NAME,
                         bit_pos,
                         opt_bit_field: Some(range),
                         calls_until_ext_bitfield: (extension_after + 1) as usize,
                         number_of_ext_fields: (C::FIELD_COUNT - (extension_after + 1)) as usize,
-                    },
-                    f,
-                )
+                    }),
+                );
+                let result = f(r);
+                let scope = core::mem::replace(&mut r.scope, original);
+                let value = result?;
+                r.skip_unknown_extension_additions(scope)?;
+                Ok(value)
             } else {
                 r.scope_pushed(Scope::OptBitField(range), f)
             }
